@@ -161,13 +161,6 @@ def parseConc (ts : List String) : Option ConcCase :=
 /-- bulk case `B <K> <pre> <adds>`: the pre ops, then all the adds through ONE `add_rules_from_grl` call, which is
 `add_rule` on each rule of the text in source order, stopping at the first error. Expected observation =
 `g<count>` (all added) or `gerr` (a duplicate name met), the version and the snapshot after the adds that succeeded. -/
-def bulkApplied : KB → List Op → List Op × Bool
-  | _, [] => ([], false)
-  | kb, op :: rest =>
-    match (step kb op).2 with
-    | .errDup => ([], true)
-    | _ => let r := bulkApplied (step kb op).1 rest; (op :: r.1, r.2)
-
 def bulkLine (ts : List String) : Option String :=
   match ts with
   | ["B", kk, pre, bulk] => do
